@@ -36,10 +36,15 @@ for tr, sfx in (('eager', 'e'), ('lazy', 'l')):
     ROOTS.append(('success_%s' % sfx, tr, 'lf_crlf', 'internal::success::match( in )', 'success', None))
     ROOTS.append(('failure_%s' % sfx, tr, 'lf_crlf', 'internal::failure::match( in )', 'failure', None))
 ROOTS.append(('bol_e', 'eager', 'lf_crlf', 'internal::bol::match( in )', 'bol', None))
+# contrib/rep_one_min_max.hpp: a maximal run of one character whose length lies in [Min, Max]
+ROMM = [('romm24x', 2, 4, 'x'), ('romm03x', 0, 3, 'x'), ('romm11nl', 1, 1, '\n'), ('romm12nl', 1, 2, '\n')]
+for tr, sfx in (('eager', 'e'), ('lazy', 'l')):
+    for nm, mn, mx, ch in ROMM:
+        ROOTS.append(('%s_%s' % (nm, sfx), tr, 'lf_crlf', 'internal::rep_one_min_max< %d, %d, %s >::match( in )' % (mn, mx, "'\\n'" if ch == '\n' else "'%s'" % ch), 'romm', (mn, mx, ch)))
 
 
 def tu():
-    s = TU_PROLOGUE
+    s = TU_PROLOGUE + '#include <tao/pegtl/contrib/rep_one_min_max.hpp>\n'
     for name, tr, eol, expr, kind, param in ROOTS:
         s += tu_root(name, INPUT_TYPES[(tr, eol)], expr)
     return s
@@ -88,6 +93,13 @@ def spec_for(kind, param, tr, eol):
     if kind == 'bytes':
         return dict(extra=[E('RET == (AVAIL_OLD(in) >= %d)' % param, 'BYTES-ACCEPT', ('C09',)),
                            E('RET ==> CONSUMED(in) == %d' % param, 'BYTES-LEN', ('C09',))], progress=True)
+    if kind == 'romm':
+        mn, mx, ch = param
+        C = str(ord(ch))
+        run = '((g_k < g_i ==> (char)UOLD(in)[g_k] == (char)%s) && (g_i == AVAIL_OLD(in) || (char)UOLD(in)[g_i] != (char)%s) && g_i <= AVAIL_OLD(in))' % (C, C)
+        return dict(extra=[E('AVAIL_OLD(in) >= %d ==> %s' % (mn, run), 'ROMM-GHOST-IS-THE-MAXIMAL-RUN', P9),      # with fewer than Min bytes left the run cannot reach Min and is not counted
+                           E('RET == (AVAIL_OLD(in) >= %d && g_i >= %d && g_i <= %d)' % (mn, mn, mx), 'ROMM-ACCEPTS-IFF-THE-MAXIMAL-RUN-IS-IN-RANGE', P9),
+                           E('RET ==> CONSUMED(in) == g_i', 'ROMM-CONSUMES-THE-RUN', P9)], can_fail=True)
     if kind == 'eol':
         pol = EOLS.index(param)
         return dict(extra=[E('RET == (vf_eol_len(UOLD(in), AVAIL_OLD(in), %d) > 0)' % pol, 'EOL-ACCEPT', ('C09', 'C10')),
@@ -115,7 +127,7 @@ def spec_for(kind, param, tr, eol):
 
 def jobs(tier):
     out = []
-    TR = traits_of(NAME, {name: expr.replace('::match( in )', '') for name, tr, eol, expr, kind, param in ROOTS})
+    TR = traits_of(NAME, {name: expr.replace('::match( in )', '') for name, tr, eol, expr, kind, param in ROOTS}, includes=('tao/pegtl/contrib/rep_one_min_max.hpp',))
     for name, tr, eol, expr, kind, param in ROOTS:
         if tier != 'thorough' and tr == 'lazy' and kind in ('eol', 'eolf') and eol not in ('lf_crlf', 'cr_crlf'):
             continue
@@ -131,6 +143,17 @@ def jobs(tier):
                 expect_fail_canary=canaries(sp.get('can_succeed', True), sp.get('can_fail', True)),
                 replay={'kind': 'leaf', 'tracking': tr, 'eol': eol, 'defs': SPEC.replace('_Bool', 'bool')},
                 desc='%s on memory_input<%s,%s>' % (expr, tr, eol))
+        if kind == 'romm':
+            j.prelude = j.prelude + 'size_t g_i, g_k;   /* ghost: run length as counted by the loop; unconstrained probe index */\n'
+            j.contract.clauses.insert(1, R('g_i == 0', 'ghost-pre'))
+            j.contract.clauses = [A('IT_FIELDS(in), g_i') if c.kind == 'assigns' else c for c in j.contract.clauses]
+            j.harness = j.harness.replace('  w_ret = ', '  g_i = 0;\n  w_ret = ')
+            fn = r'internal::rep_one_min_max<.*>::match<'
+            j.loops = {(fn, 1): '__CPROVER_assigns(i, g_i)\n__CPROVER_loop_invariant(i <= size && g_i == i && size == AVAIL_OLD_NOW(in) && ((g_k < i) ==> (char)UNOW(in)[g_k] == (char)%d)%s)\n__CPROVER_decreases(size - i)' % (
+                ord(param[2]), ''.join(' && ((%d < i) ==> (char)UNOW(in)[%d] == (char)%d)' % (q, q, ord(param[2])) for q in range(param[1] + 1)))}   # the first Max+1 bytes explicitly: RC-POS folds over every consumed byte
+            j.ghost = {(fn, 1): '{ g_i = i; }'}
+            j.prelude += '#define UNOW(in) ((const vf_u8*)CUR(in))\n#define AVAIL_OLD_NOW(in) ((size_t)(IN_END(in) - CUR(in)))\n'
+            j.replay = None
         if kind == 'everything' and tr == 'eager':
             j.loops = {(r'^tao::pegtl::internal::bump\(', 1):
                        '__CPROVER_assigns(i, iter->line, iter->column)\n'
